@@ -1464,15 +1464,24 @@ pub fn set_history_props(props: &[u8]) {
 }
 
 fn c16_eval(n: usize, calls: &[Call], batch: usize, st: &mut Stats) {
-    c16_eval_mode(n, calls, batch, false, st)
+    c16_eval_mode(n, calls, batch, false, 0, st)
+}
+
+/// Mixed forms within one history: call i goes through the batch form (a batch of one) iff bit i
+/// of `mask` is set, through the single form otherwise (S252: a pair first given through a batch
+/// form and later through a single form).
+fn c16_eval_mixed(n: usize, calls: &[Call], mask: u32, st: &mut Stats) {
+    c16_eval_mode(n, calls, 0, false, mask, st)
 }
 
 /// `lazy`: functions are added only when a call first needs them (function i together with every
 /// function before it), the rest after the last call - edge calls and `add_fn` interleave.
-fn c16_eval_mode(n: usize, calls: &[Call], batch: usize, lazy: bool, st: &mut Stats) {
+fn c16_eval_mode(n: usize, calls: &[Call], batch: usize, lazy: bool, mixed: u32, st: &mut Stats) {
     // batch = 0: single calls; batch = N: calls grouped into add_*_edges::<N> where the kinds agree
     let spec = Spec { n, edges: calls.iter().map(|c| (c.from, c.to, c.contains)).collect(), decl: vec![], redeclare: 0, prov: 0 };
-    let what = if lazy {
+    let what = if mixed != 0 {
+        format!("call_sequence_mixed{mixed}{}", if lazy { "_lazy" } else { "" })
+    } else if lazy {
         "call_sequence_lazy".to_string()
     } else if batch == 0 {
         "call_sequence".to_string()
@@ -1490,7 +1499,13 @@ fn c16_eval_mode(n: usize, calls: &[Call], batch: usize, lazy: bool, st: &mut St
                     let i = ids.len();
                     ids.push(b.add_fn(Node::new(i, vec![])));
                 }
-                let r = if c.contains { b.add_contains_edge(ids[c.from], ids[c.to]) } else { b.add_logic_edge(ids[c.from], ids[c.to]) };
+                let via_batch = mixed >> (results.len() % 32) & 1 == 1;
+                let r = match (via_batch, c.contains) {
+                    (false, true) => b.add_contains_edge(ids[c.from], ids[c.to]).map(|_| ()),
+                    (false, false) => b.add_logic_edge(ids[c.from], ids[c.to]).map(|_| ()),
+                    (true, true) => b.add_contains_edges([(ids[c.from], ids[c.to])]).map(|_| ()),
+                    (true, false) => b.add_logic_edges([(ids[c.from], ids[c.to])]).map(|_| ()),
+                };
                 results.push(r.is_ok());
             }
             while ids.len() < n {
@@ -1676,6 +1691,13 @@ pub fn run_call_histories(tier: &str, light: bool, deadline: Instant, total: &mu
                                 c16_eval(n, &calls, batch, local);
                             }
                         }
+                        // every assignment of the single / batch form to the calls (all-single and
+                        // all-batch are the two runs above)
+                        if calls.len() >= 2 && calls.len() <= 5 {
+                            for mask in 1..(1u32 << calls.len()) - 1 {
+                                c16_eval_mixed(n, &calls, mask, local);
+                            }
+                        }
                         if local.samples.len() < 2 && calls.len() >= 3 && local.execs % 50 == 3 {
                             local.samples.push(json!({"n": n, "calls": calls.iter().map(|c| format!("{}{}{}", c.from, if c.contains { "=>" } else { "->" }, c.to)).collect::<Vec<_>>()}));
                         }
@@ -1704,7 +1726,7 @@ pub fn run_call_histories(tier: &str, light: bool, deadline: Instant, total: &mu
             |l| st.merge(l),
         );
         st.capped |= capped;
-        let label = format!("all call sequences over n={n} functions ({k} distinct calls incl. self edges), length <= {maxlen}, single and batch forms");
+        let label = format!("all call sequences over n={n} functions ({k} distinct calls incl. self edges), length <= {maxlen}, single forms, batch forms, and (length <= 5) every mix of the two within one history");
         log.push(json!({"space": label, "sequences": st.execs, "completed": !st.capped, "wall_s": t0.elapsed().as_secs_f64()}));
         eprintln!("  [{label}] evaluated={} viol={} {}{:.1}s", st.execs, st.viol_total, if st.capped { "CAPPED " } else { "" }, t0.elapsed().as_secs_f64());
         total.merge(st);
@@ -1732,8 +1754,13 @@ pub fn run_call_histories(tier: &str, light: bool, deadline: Instant, total: &mu
             |i, local: &mut Stats| {
                 fn rec(alphabet: &[Call], seq: &mut Vec<usize>, maxlen: usize, n: usize, local: &mut Stats) {
                     let calls: Vec<Call> = seq.iter().map(|&c| alphabet[c]).collect();
-                    c16_eval_mode(n, &calls, 0, false, local);
-                    c16_eval_mode(n, &calls, 0, true, local);
+                    c16_eval_mode(n, &calls, 0, false, 0, local);
+                    c16_eval_mode(n, &calls, 0, true, 0, local);
+                    // single and batch forms alternating within the history
+                    if n <= 17 {
+                        c16_eval_mode(n, &calls, 0, false, 0x5555_5555, local);
+                        c16_eval_mode(n, &calls, 0, true, 0xAAAA_AAAA, local);
+                    }
                     if seq.len() < maxlen {
                         for c in 0..alphabet.len() {
                             seq.push(c);
@@ -1749,7 +1776,7 @@ pub fn run_call_histories(tier: &str, light: bool, deadline: Instant, total: &mu
             |l| st.merge(l),
         );
         st.capped |= capped;
-        let label = format!("n={n} functions: all call sequences of length <= {maxlen} over the representative functions {reps:?} ({k} distinct calls), functions added up front / lazily between the calls");
+        let label = format!("n={n} functions: all call sequences of length <= {maxlen} over the representative functions {reps:?} ({k} distinct calls), functions added up front / lazily between the calls{}", if n <= 17 { ", single forms and single / batch forms alternating" } else { "" });
         log.push(json!({"space": label, "sequences": st.execs, "completed": !st.capped, "wall_s": t0.elapsed().as_secs_f64()}));
         eprintln!("  [{label}] evaluated={} viol={} {}{:.1}s", st.execs, st.viol_total, if st.capped { "CAPPED " } else { "" }, t0.elapsed().as_secs_f64());
         total.merge(st);
@@ -1770,8 +1797,9 @@ pub fn run_call_histories(tier: &str, light: bool, deadline: Instant, total: &mu
             Stats::default,
             |i, local: &mut Stats| {
                 let (n, calls) = &hs_ref[i];
-                c16_eval_mode(*n, calls, 0, false, local);
-                c16_eval_mode(*n, calls, 0, true, local);
+                c16_eval_mode(*n, calls, 0, false, 0, local);
+                c16_eval_mode(*n, calls, 0, true, 0, local);
+                c16_eval_mode(*n, calls, 0, false, 0x6DB6_DB6D, local);
                 local.fold_hashes();
             },
             |l| st.merge(l),
@@ -2188,5 +2216,6 @@ fn long_call_histories(tier: &str) -> Vec<(usize, Vec<Call>)> {
 pub fn replay_c16(spec: &Spec, what: &str, st: &mut Stats) {
     let calls: Vec<Call> = spec.edges.iter().map(|&(a, b, c)| Call { from: a, to: b, contains: c }).collect();
     let batch = what.strip_prefix("call_sequence_batch").and_then(|s| s.parse().ok()).unwrap_or(0);
-    c16_eval_mode(spec.n, &calls, batch, what == "call_sequence_lazy", st);
+    let mixed = what.strip_prefix("call_sequence_mixed").and_then(|s| s.trim_end_matches("_lazy").parse().ok()).unwrap_or(0);
+    c16_eval_mode(spec.n, &calls, batch, what.ends_with("_lazy"), mixed, st);
 }
